@@ -653,6 +653,111 @@ func runVariants(res *core.Result, r *rand.Rand, caps []*capture, idV *m.Address
 	}
 }
 
+// reannounced: a route is learned from an announcement, then the same origin announces again over the same relays
+// with other signed values (the relays' measured latencies have changed - here two of them swap, so that even the
+// total stays the same). If the router accepts the second announcement (it is seen forwarding it with its own hop
+// record), the route it holds for that origin over those relays must list what the relays signed in THAT
+// announcement, not what they signed last time.
+func reannounced(res *core.Result, r *rand.Rand, relays int) {
+	n := relays + 3 // origin, relays, victim, a further peer of the victim
+	t := vmesh.Line(n)
+	ids := make([]*m.Address, n)
+	for i := range ids {
+		ids[i] = env.NewIdentity(r, nil)
+	}
+	ms, err := vmesh.Build(r, t, ids, vmesh.BuildOpts{Labels: vmesh.LabelMode(r.IntN(3))})
+	if err != nil {
+		res.Inconcl("reannounced: %v", err)
+		return
+	}
+	V := n - 2
+	origin := ids[0].IP
+	lats := make([]uint16, n)
+	for i := 1; i < n; i++ {
+		lats[i] = uint16(5 + 7*i + r.IntN(5))
+		ms.SetLatency(i-1, i, lats[i], lats[i]) // node i's link towards the origin
+	}
+	var lastIn []byte // the newest announcement of the origin that reached the victim
+	forwarded := 0
+	ms.OnSend = func(p *vmesh.Packet) {
+		if !isAnnouncement(p.Data) || netip.AddrFrom16([16]byte(p.Data[16:32])) != origin {
+			return
+		}
+		if p.To == V && p.From == V-1 {
+			lastIn = append([]byte(nil), p.Data...)
+		}
+		if p.From == V && p.To == V+1 {
+			forwarded++
+		}
+	}
+	check := func(round int, what string) bool {
+		if lastIn == nil {
+			res.Count("reannounced_rounds_without_delivery", 1)
+			return true
+		}
+		if forwarded == 0 {
+			// not accepted (or not worth forwarding): the statement demands nothing of the table then
+			res.Count("reannounced_rounds_not_forwarded", 1)
+			return true
+		}
+		layers := decodeLayers(lastIn[apxIndex(lastIn):])
+		var got *m.RoutingTableEntry
+		es := ms.Nodes[V].Inst.RouterV.Table().VerifEntries()
+		for i := range es {
+			if es[i].DstIP == origin && len(es[i].Path.Hops) == len(layers)+2 {
+				got = &es[i]
+			}
+		}
+		wit := map[string]any{"operator": "reannounced", "round": round, "case_id": "reannounced"}
+		if got == nil {
+			res.Violate("authentic-announcement-wrong-route:reannounced", fmt.Sprintf("round %d (%s): the router forwarded the origin's announcement but holds no route to it over those %d relays", round, what, len(layers)), wit)
+			return false
+		}
+		for i, l := range layers {
+			h := got.Path.Hops[1+i]
+			if h.Router != l.Router.IP || h.Delay != l.Delay || h.ForwardLabel != l.ForwardLabel || h.ReturnLabel != l.ReturnLabel {
+				res.Violate("authentic-announcement-wrong-route:reannounced", fmt.Sprintf("round %d (%s): the router accepted and forwarded the origin's new announcement, but its route still lists other values than the relays signed in it: hop %d is %s delay %d labels %d/%d, signed now: delay %d labels %d/%d", round, what, 1+i, h.Router, h.Delay, h.ForwardLabel, h.ReturnLabel, l.Delay, l.ForwardLabel, l.ReturnLabel), wit)
+				return false
+			}
+		}
+		res.Count("reannounced_routes_match_newest_announcement", 1)
+		return true
+	}
+	for round := 1; round <= 3; round++ {
+		what := "first announcement"
+		if round > 1 {
+			// two relays swap their latencies (the total stays), or all change
+			i, j := 1+r.IntN(n-2), 1+r.IntN(n-2)
+			if round == 2 && i != j {
+				lats[i], lats[j] = lats[j], lats[i]
+				what = fmt.Sprintf("latencies of the links at nodes %d and %d swapped", i, j)
+			} else {
+				for k := 1; k < n-1; k++ {
+					lats[k] = uint16(3 + r.IntN(90))
+				}
+				what = "all latencies changed"
+			}
+			for k := 1; k < n; k++ {
+				ms.SetLatency(k-1, k, lats[k], lats[k])
+			}
+			time.Sleep(2 * time.Millisecond)
+		}
+		lastIn, forwarded = nil, 0
+		if err := ms.Converge(r, false); err != nil {
+			res.Inconcl("reannounced: %v", err)
+			return
+		}
+		if len(ms.Panics) > 0 {
+			res.Violate("handler-panic:reannounced", fmt.Sprint(ms.Panics[0]), nil)
+			return
+		}
+		if !check(round, what) {
+			return
+		}
+	}
+	res.Case(fmt.Sprintf("reannounced/relays%d", relays), true)
+}
+
 // concurrentSplice: the router's frame handlers run in parallel (one per CPU). While several of them handle
 // genuine announcements of origin Q delivered by peer P, another one receives the frame of origin C carrying the
 // hop records P signed for Q's announcement. Handled alone that splice is refused (splice-other-origin above);
@@ -799,6 +904,9 @@ func run(c *core.Ctx) {
 		}
 		runVariants(res, r, caps, ids[s.t.N], ids[s.t.N+1], flips, func(cp *capture) bool { return chosen[cp] })
 		concurrentSplice(res, r, caps, ids[s.t.N], ids[s.t.N+1], c.Q(2, 12), c.Q(300, 1500))
+		for k := 0; k < c.Q(2, 10); k++ {
+			reannounced(res, r, 1+(w+k)%4)
+		}
 		_ = W
 	})
 	res.Sample(map[string]any{"operator": "resigned-outer-over-foreign-inner-chain", "desc": "a relay that holds a real key signs its own hop record (context of announcement A) over the hop chain of announcement B"})
